@@ -17,6 +17,7 @@ import ReuseVerif.Lemmas.Window
 import ReuseVerif.Lemmas.Merge
 import ReuseVerif.Lemmas.C02Lines
 import ReuseVerif.Lemmas.C02TailSafe
+import ReuseVerif.Lemmas.C02Copyright
 import ReuseVerif.Theorems.C20
 
 namespace C02
@@ -415,6 +416,98 @@ example : WFNotice Generated.endRe ("SPDX-FileCopyrightText:".toList, .spdx, [])
     rw [← e]; exact this
   simp only [WFNotice, WFHolder, he, hs, hs0, Bool.and_true, Bool.true_and]
   decide +kernel
+
+/-- `C02_copyright_exact_partial` with purely syntactic END conditions (`WFNoticeSyn`): the trail a sequence of
+    listed terminators and blanks, the holder tail-safe (`Jane Doe <jane@example.org>` is). -/
+theorem C02_copyright_exact_syn_partial (endRe : Re) (x : Text × CPat × Text) (hx : x ∈ prefixShapes)
+    (y : YearForm) (h pre trail : Text) (pieces : List Text) (hwf : WFNoticeSyn endRe x y h pre trail pieces = true) :
+    searchLineWith endRe (pre ++ builtLine x.1 y h ++ trail) =
+      some { pref := x.1, year := y.text, statement := h, whole := builtLine x.1 y h } :=
+  C02_copyright_exact_partial endRe x hx y h pre trail (C02L.wfNotice_of_syn endRe x y h pre trail pieces hwf)
+
+/-- what the reader finds in a line of a text of lines (`CprLine`) -/
+theorem C02_copyright_line_read (endRe : Re) (l : CprLine) (hok : l.ok endRe = true) :
+    (searchLineWith endRe l.text).map (fun m => strip m.whole) = l.found endRe := by
+  cases l with
+  | other t => rfl
+  | notice x y h pre trail =>
+    simp only [CprLine.ok, Bool.and_eq_true, decide_eq_true_eq] at hok
+    obtain ⟨⟨⟨hx, hwf⟩, hs⟩, _⟩ := hok
+    have hstrip : strip (builtLine x.1 y h) = builtLine x.1 y h := by
+      simpa [isStripped] using hs
+    simp only [CprLine.text, CprLine.found, C02_copyright_exact_partial endRe x hx y h pre trail hwf, Option.map_some, hstrip]
+
+/-- **Copyright notices of a whole text.**  The text is any number of lines (separated by line feeds, none holding a
+    line boundary of `str.splitlines`), each either a notice line `pre ++ notice ++ trail` (hypotheses of
+    `C02_copyright_exact_partial`, about that line alone) or any other line; no `REUSE-IgnoreStart`.  Then the
+    notices `extract_reuse_info` collects are exactly: for every notice line its notice — without `pre`, without
+    the trail —, for every other line whatever the reader finds in it; as a set in order of first occurrence. -/
+theorem C02_copyright_lines (endRe : Re) (ls : List CprLine) (hok : ∀ l ∈ ls, l.ok endRe = true)
+    (hign : findSub Generated.ignoreStart (cprTextOf ls) = none) :
+    (extractRawWith endRe (cprTextOf ls)).cpr = dedup (ls.filterMap (·.found endRe)) := by
+  rw [C02L.extractRawWith_cpr, filterIgnore_none hign,
+    C02L.cprLines_text endRe ls hok (fun l hl => C02_copyright_line_read endRe l (hok l hl))]
+
+/-- … in particular, when the other lines hold no notice: exactly the planted notices. -/
+theorem C02_copyright_lines_planted (endRe : Re) (ls : List CprLine) (hok : ∀ l ∈ ls, l.ok endRe = true)
+    (hq : ∀ l ∈ ls, l.quietOther endRe = true)
+    (hign : findSub Generated.ignoreStart (cprTextOf ls) = none) :
+    (extractRawWith endRe (cprTextOf ls)).cpr = dedup (ls.filterMap (·.planted)) := by
+  rw [C02_copyright_lines endRe ls hok hign, C02L.found_eq_planted endRe ls hq]
+
+/-- … and as membership, both ways, with nothing assumed about the other lines: a notice is reported iff it is
+    planted in a notice line or the reader finds it in one of the other lines. -/
+theorem C02_copyright_lines_mem (endRe : Re) (ls : List CprLine) (hok : ∀ l ∈ ls, l.ok endRe = true)
+    (hign : findSub Generated.ignoreStart (cprTextOf ls) = none) (n : Text) :
+    n ∈ (extractRawWith endRe (cprTextOf ls)).cpr ↔
+      n ∈ ls.filterMap (·.planted) ∨
+      ∃ t, CprLine.other t ∈ ls ∧ (searchLineWith endRe t).map (fun m => strip m.whole) = some n := by
+  rw [C02_copyright_lines endRe ls hok hign, mem_dedup]
+  simp only [List.mem_filterMap]
+  constructor
+  · rintro ⟨l, hl, hf⟩
+    cases l with
+    | other t => exact .inr ⟨t, hl, hf⟩
+    | notice x y h pre trail => exact .inl ⟨_, hl, hf⟩
+  · rintro (⟨l, hl, hf⟩ | ⟨t, ht, hf⟩)
+    · cases l with
+      | other t => cases hf
+      | notice x y h pre trail => exact ⟨_, hl, hf⟩
+    · exact ⟨_, ht, hf⟩
+
+/-- the hypotheses are satisfiable:
+    `# SPDX-FileCopyrightText: 2020 Jane Doe <jane@example.org> */ -->` / `int main() {` /
+    ` * Copyright (C) 2019-2021 Example Corp` / `` -/
+example : (extractRawWith Generated.endRe (cprTextOf
+    [.notice ("SPDX-FileCopyrightText:".toList, .spdx, []) (.single "2020".toList) "Jane Doe <jane@example.org>".toList
+        "# ".toList " */ -->".toList,
+     .other "int main() {".toList,
+     .notice ("Copyright (C)".toList, .word, " (C)".toList) (.range "2019".toList false false "2021".toList)
+        "Example Corp".toList " * ".toList [],
+     .other []])).cpr =
+    ["SPDX-FileCopyrightText: 2020 Jane Doe <jane@example.org>".toList, "Copyright (C) 2019-2021 Example Corp".toList] := by
+  have h1 := C02L.wfNotice_of_syn Generated.endRe ("SPDX-FileCopyrightText:".toList, .spdx, []) (.single "2020".toList)
+    "Jane Doe <jane@example.org>".toList "# ".toList " */ -->".toList [" ".toList, "*/".toList, " ".toList, "-->".toList]
+    (by decide +kernel)
+  have h2 := C02L.wfNotice_of_syn Generated.endRe ("Copyright (C)".toList, .word, " (C)".toList)
+    (.range "2019".toList false false "2021".toList) "Example Corp".toList " * ".toList [] [] (by decide +kernel)
+  rw [C02_copyright_lines_planted]
+  · decide +kernel
+  · intro l hl
+    simp only [List.mem_cons, List.not_mem_nil, or_false] at hl
+    rcases hl with rfl | rfl | rfl | rfl
+    · simp only [CprLine.ok, h1, Bool.and_true, Bool.true_and]; decide +kernel
+    · decide +kernel
+    · simp only [CprLine.ok, h2, Bool.and_true, Bool.true_and]; decide +kernel
+    · decide +kernel
+  · intro l hl
+    simp only [List.mem_cons, List.not_mem_nil, or_false] at hl
+    rcases hl with rfl | rfl | rfl | rfl
+    · rfl
+    · exact C02L.noticeFree_of_headFree _ _ (by decide +kernel)
+    · rfl
+    · exact C02L.noticeFree_of_headFree _ _ (by decide +kernel)
+  · decide +kernel
 
 /-! ### an unparseable expression drops the whole file -/
 
